@@ -188,6 +188,17 @@ def rand_meshspec(
             break
     else:
         n = np.full(nd, min_n)
+    if rng.random() < 0.08:
+        # one long axis (13..63 cells): block sizes, two-digit indices, stencil runs much
+        # longer than any stencil; the other axes shrink until the cell budget is kept
+        ax = int(rng.integers(0, nd))
+        n[ax] = int(10.0 ** rng.uniform(1.12, 1.8))
+        while np.prod(n) > max_cells:
+            others = [k for k in range(nd) if k != ax and n[k] > min_n]
+            if not others:
+                n[ax] = max(min_n, int(max_cells // max(1, np.prod(n) // n[ax])))
+                break
+            n[others[int(rng.integers(0, len(others)))]] -= 1
     if int_corners is None:
         int_corners = rng.random() < 0.15
     dyadic = (not int_corners) and rng.random() < 0.12
@@ -237,6 +248,10 @@ def rand_subregions(rng, spec, kmax=3, names=None):
     """{name: (lo, hi)} index boxes plus the matching {name: Region} dict."""
     k = int(rng.integers(0, kmax + 1))
     names = names or ["s0", "r1", "sub_2", "Z"]
+    if kmax >= 2 and names[:2] == ["s0", "r1"] and rng.random() < 0.06:
+        # many subregions with numbered names ('r10' sorts before 'r2' as a string)
+        k = int(rng.integers(10, 14))
+        names = [f"r{j}" for j in rng.permutation(k)]
     boxes, regions = {}, {}
     for j in range(k):
         lo, hi = rand_box(rng, spec.n)
